@@ -214,6 +214,9 @@ impl DatabaseHeader {
     pub(in crate::tree_store::page_store) fn verif_primary_index(&self) -> usize {
         self.primary_slot
     }
+    pub(in crate::tree_store::page_store) fn verif_set_primary_index(&mut self, p: usize) {
+        self.primary_slot = p;
+    }
     pub(in crate::tree_store::page_store) fn verif_set_counts(&mut self, full: u32, trailing: u32) {
         self.full_regions = full;
         self.trailing_partial_region_pages = trailing;
